@@ -9,10 +9,14 @@ package c16
 
 import (
 	"fmt"
+	"net"
+	"net/http"
 	"sort"
 	"testing"
+	"testing/synctest"
 	"time"
 
+	"github.com/wi1dcard/fingerproxy/pkg/proxyserver"
 	"verif/bubble"
 	"verif/ev"
 	"verif/faults"
@@ -57,6 +61,13 @@ func faultPoints(t *testing.T, rep *ev.Report, shard, of int, only string) {
 	}
 	for k := 0; k < 6; k++ {
 		cases = append(cases, faults.Case{Kind: "plain-http", K: k, Val: 0}, faults.Case{Kind: "plain-http", K: k, Val: 1})
+	}
+	// a long history on one h2 connection: more frames of one kind than any per-connection list or limit holds
+	for k := 0; k < 6; k++ {
+		cases = append(cases, faults.Case{Kind: "h2-flood", Proto: "h2", K: k, Val: 10050})
+	}
+	for _, k := range []int{1, 20} {
+		cases = append(cases, faults.Case{Kind: "abort-many", Proto: "h2", K: k, Val: 0})
 	}
 	rep.Info["fault_point_cases_total"] = len(cases)
 	for i, cs := range cases {
@@ -110,7 +121,81 @@ func faultPoints(t *testing.T, rep *ev.Report, shard, of int, only string) {
 			rep.HarnessError("fault point %s: panic %v\n%s", cs, res.Panic, res.Stack)
 		}
 		if res.Hang != "" {
-			rep.HarnessError("fault point %s: %s", cs, res.Hang)
+			rep.Violate(map[string]any{"kind": "not-counted", "detail": "connection-never-ends", "case_kind": cs.Kind, "proto": cs.Proto}, map[string]any{"fault_point_case": cs.String()},
+				"fault point %s: the connection can never end, so it is never counted: %s", cs, res.Hang)
+		}
+	}
+}
+
+// hookPanics: the application's http.Server.ConnState hook panics at one of the four transitions; the connection it
+// panicked for (HTTP/1.1 or HTTP/2) is still counted exactly once when it has ended.
+func hookPanics(t *testing.T, rep *ev.Report, shard, of int) {
+	job := 0
+	for _, proto := range []string{"h1", "h2"} {
+		for _, state := range []http.ConnState{http.StateNew, http.StateActive, http.StateIdle, http.StateClosed} {
+			job++
+			if job%of != shard {
+				continue
+			}
+			proto, state := proto, state
+			desc := fmt.Sprintf("ConnState hook panics at %v, %s connection", state, proto)
+			res := bubble.Run(t, func() {
+				st := bubble.NewStack(bubble.StackOpts{HandshakeTimeout: 10 * time.Second, Configure: func(s *proxyserver.Server) {
+					s.HTTPServer.ConnState = func(c net.Conn, cs http.ConnState) {
+						if cs == state {
+							panic("injected panic in ConnState hook")
+						}
+					}
+				}})
+				defer st.Shutdown()
+				h := helloH1
+				if proto == "h2" {
+					h = helloH2
+				}
+				cl := st.Connect("victim", nil, h)
+				synctest.Wait()
+				if done, err := cl.Handshake(); done && err == nil {
+					if proto == "h1" {
+						cl.SendH1(bubble.Req{Path: "/x", Host: "localhost"})
+					} else {
+						cl.StartH2()
+						cl.SendH2(1, bubble.Req{Path: "/x", Host: "localhost"})
+					}
+				}
+				synctest.Wait()
+				cl.Close()
+				synctest.Wait()
+				time.Sleep(15 * time.Second)
+				synctest.Wait()
+				rep.Add("hook_panic_cases", 1)
+				rep.Add("evaluations", 1)
+				cnt := st.Counter()
+				total := 0.0
+				var keys []string
+				for k, v := range cnt {
+					total += v
+					keys = append(keys, fmt.Sprintf("%s=%v", k, v))
+				}
+				sort.Strings(keys)
+				rep.Note("distinct_outcomes", fmt.Sprintf("hook/%s/%v/%v", proto, state, keys))
+				want := map[string]string{"h1": "1/http/1.1", "h2": "1/h2"}[proto]
+				bad := int(total) != 1
+				for k := range cnt {
+					if k != "0/" && k != want {
+						bad = true
+					}
+				}
+				if bad {
+					rep.Violate(map[string]any{"kind": "hook-panic-miscount", "proto": proto, "state": state.String()}, map[string]any{"desc": desc},
+						"%s: one connection was accepted and has ended, requests_total = %v", desc, keys)
+				}
+			})
+			if res.Panic != nil {
+				rep.Violate(map[string]any{"kind": "panic", "detail": "hook-panic"}, map[string]any{"desc": desc}, "%s: panic escaped: %v", desc, res.Panic)
+			}
+			if res.Hang != "" {
+				rep.Violate(map[string]any{"kind": "hang", "detail": "hook-panic"}, map[string]any{"desc": desc}, "%s: %s", desc, res.Hang)
+			}
 		}
 	}
 }
